@@ -1583,3 +1583,47 @@ def recompiled_function_keeps_the_rest(ctx):
     from . import recodeexec
 
     recodeexec.law(ctx, "carried-over", "planted-globals")
+
+
+# ---------------------------------------------------------------------------------------- type hooks keep no state
+TYPE_HOOKS = ("__type_order__", "__is_supertype__", "__is_subtype__", "__instancecheck__", "__subclasscheck__")
+
+
+def type_hooks_keep_no_state(ctx):
+    """The hooks through which the package's own types answer the subtype test, the order function and isinstance
+    (`__type_order__`, `__is_supertype__`, `__is_subtype__`, `__instancecheck__`, `__subclasscheck__`) write nothing to
+    the type object: a type is shared by every function, call and thread that uses it."""
+    repo = ctx.repo
+    n = 0
+    for c in repo.all_classes():
+        raw = repo.raw_methods(c)
+        for name in TYPE_HOOKS:
+            m = c.methods.get(name)
+            if m is None:
+                continue
+            n += 1
+            ctx.touch(m)
+            # the hook and the methods of its class it calls on the receiver (as written in the source)
+            todo, seen, ws = [name], set(), []
+            while todo:
+                cur = todo.pop()
+                if cur in seen or cur not in raw:
+                    continue
+                seen.add(cur)
+                node = raw[cur]
+                rv = node.args.args[0].arg if node.args.args else None
+                if rv is None:
+                    continue
+                for w in func_writes(node, rv):
+                    ws.append((cur, w.stmt))
+                for x in ast.walk(node):
+                    if isinstance(x, ast.Call) and isinstance(x.func, ast.Attribute) and isinstance(x.func.value, ast.Name) and x.func.value.id == rv:
+                        todo.append(x.func.attr)
+            ctx.ob(
+                f"{m.key}:keeps-no-state",
+                m.loc(),
+                f"`{c.name}.{name}` (with the {len(seen) - 1} methods of its class it calls) stores nothing on the type object",
+                not ws,
+                (f"`{short(ws[0][1], 60)}` in `{ws[0][0]}` writes to the type object while answering a question about one class: two threads asking about different classes at once (or one question interrupted by another) read each other's half-written answer, so a method is wrongly matched, wrongly skipped or reported ambiguous" if ws else ""),
+            )
+    ctx.require(n >= 8, "expected the type hooks of the package's own types")
